@@ -120,7 +120,7 @@ def _flow_job(kw):
     cell_box = []
 
     def prepare(ev, runner):
-        atlas_found.extend(_atlas_problems(proj, cell_box[0], runner.attrs["configs"].attrs["managers"]["threshold"]))
+        atlas_found.extend(_atlas_problems(proj, cell_box[0], R.manager(runner, "threshold")))
         orig = ev.ext_calls["eko.matchings.nf_default"]
 
         def nf_default(ev_, mu2, atlas):
@@ -135,7 +135,7 @@ def _flow_job(kw):
                 if sym.kind == "from" and f"{sym.target}.{sym.attr}" == "eko.matchings.nf_default":
                     ev.overrides[f"{m.name}::{name}"] = S._NativeFn(lambda *a, **k: nf_default(ev, *a, **k))
         # the same count written out by hand (searchsorted / digitize over the atlas walls) is the same determination
-        walls = runner.attrs["configs"].attrs["managers"]["threshold"].attrs.get("walls")
+        walls = R.manager(runner, "threshold").attrs.get("walls")
         for fname, pos in (("numpy.searchsorted", (0, 1)), ("numpy.digitize", (1, 0))):
             orig_f = ev.ext_calls.get(fname)
             if orig_f is None:
@@ -145,7 +145,7 @@ def _flow_job(kw):
                 v = _o(ev_, *a, **k)
                 arr, val = a[_pos[0]], a[_pos[1]]
                 if arr is walls or (isinstance(arr, S.Arr) and walls is not None and [A.canon(S.num_norm(x)) for x in arr.data] == [A.canon(S.num_norm(x)) for x in walls]):
-                    calls.append((S.num_norm(val), runner.attrs["configs"].attrs["managers"]["threshold"], S.num_norm(v) + 2))
+                    calls.append((S.num_norm(val), R.manager(runner, "threshold"), S.num_norm(v) + 2))
                 return v
 
             ev.ext_calls[fname] = wrapped
@@ -161,7 +161,7 @@ def _flow_job(kw):
     cell = op.cell
     problems = []
     runner = op.runner
-    atlas = runner.attrs["configs"].attrs["managers"]["threshold"]
+    atlas = R.manager(runner, "threshold")
     # (atlas) matching scales (checked right after the runner was built, see prepare) and the single nf_default call
     problems.extend(atlas_found)
     if not calls:
